@@ -317,9 +317,18 @@ class BehavioralRTLIRToVVisitorL1( bir.BehavioralRTLIRNodeVisitor ):
     current_nbits = int(node.value.Type.get_dtype().get_length())
     padded_nbits = target_nbits - current_nbits
     if padded_nbits == 0:
-      return value
+      return s._same_width( node.value, value )
     else:
       return f"{{ {{ {padded_nbits} {{ 1'b0 }} }}, {value} }}"
+
+  def _same_width( s, operand, value ):
+    # zext / sext / trunc to the operand's own width is rendered by the operand
+    # itself; the enclosing operator only wraps IfExp/UnaryOp/BinOp/Compare
+    # NODES, so a compound operand has to be wrapped here or
+    # `a & zext( a | b, 8 )` becomes `a & a | b`.
+    if isinstance( operand, ( bir.IfExp, bir.UnaryOp, bir.BinOp, bir.Compare ) ):
+      return f"( {value} )"
+    return value
 
   #-----------------------------------------------------------------------
   # visit_SignExt
@@ -338,7 +347,7 @@ class BehavioralRTLIRToVVisitorL1( bir.BehavioralRTLIRNodeVisitor ):
     padded_nbits = target_nbits - current_nbits
 
     if padded_nbits == 0:
-      return value
+      return s._same_width( node.value, value )
 
     template = "{{ {{ {padded_nbits} {{ {value}[{last_bit}] }} }}, {value} }}"
     one_bit_template = "{{ {{ {padded_nbits} {{ {_value} }} }}, {value} }}"
@@ -405,7 +414,7 @@ class BehavioralRTLIRToVVisitorL1( bir.BehavioralRTLIRNodeVisitor ):
     if isinstance(dtype, rdt.Vector) and dtype.get_length() > nbits:
       return f"{nbits}'({value})"
     else:
-      return value
+      return s._same_width( node.value, value )
 
   #-----------------------------------------------------------------------
   # visit_Reduce
